@@ -265,7 +265,9 @@ Proof.
   match goal with |- context [if 1 <? ?nv then _ else _] => destruct (1 <? nv) end.
   - intros E. inversion E; subst. apply Forall_forall. intros d Hd. apply in_map_iff in Hd as (i & <- & _).
     apply mk_array_words_ok. destruct (ax =? 0); [apply block_col_Forall | apply block_row_Forall]; assumption.
-  - match goal with |- context [if ?b then Err _ else _] => destruct b end; [discriminate|].
+  - match goal with |- context [if ?nv <? 1 then _ else _] => destruct (nv <? 1) end.
+    { intros E. inversion E. constructor. }
+    match goal with |- context [if ?b then Err _ else _] => destruct b end; [discriminate|].
     intros E. inversion E; subst. constructor; [|constructor]. now apply mk_array_words_ok.
 Qed.
 
@@ -481,4 +483,27 @@ Theorem padding_full {A} (z d : A) nn v : length v = (2 * nn)%nat ->
 Proof.
   intros Hl. rewrite (pad3_spec z nn v Hl). split; [reflexivity|]. split; [now apply pad_spec_length|].
   intros k Hk. apply pad_spec_nth. lia.
+Qed.
+
+(* ---- defects of the code that the faithful model reproduces (witnesses of the findings reported for C20) ---- *)
+(* two nodal 2-D vector fields as a 2 x 18 block on the 2 x 2 grid: axis 1 is 2*nnodes, no axis is a multiple of nel,
+   but the total size 36 is: sorted into cell data, no axis found -> TypeError *)
+Theorem block_total_size_refuted :
+  exists g k c, wf g /\ 1 < k /\ k mod nel g <> 0 /\ k mod nnodes g <> 0 /\ (c * nnodes g) mod nel g <> 0 /\
+    forall key ws, vti_arrays g [(key, [k; c * nnodes g], ws)] = Err TypeError.
+Proof.
+  exists {| nelx := 2; nely := 2; nelz := 0 |}, 2, 2. unfold wf. cbn. repeat split; try lia; discriminate.
+Qed.
+
+(* a block with ONE 2-component nodal vector on a 2-D domain: the 2-D array reaches the padding code -> ValueError *)
+Theorem single_vector_block_refuted : forall n key ws, 1 < n ->
+  entry_arrays true true n key [1; 2 * n] ws = Err ValueError /\
+  entry_arrays true true n key [2 * n; 1] ws = Err ValueError.
+Proof.
+  intros n key ws Hn. split.
+  - unfold entry_arrays. cbn [find_ax]. rewrite Z.mod_1_l by lia. cbn [Z.eqb].
+    rewrite Z.mod_mul, Z.eqb_refl by lia. change (Z.to_nat (0 + 1)) with 1%nat. cbn [nth].
+    rewrite Z.div_mul by lia. reflexivity.
+  - unfold entry_arrays. cbn [find_ax]. rewrite Z.mod_mul, Z.eqb_refl by lia.
+    change (Z.to_nat 0) with 0%nat. cbn [nth]. rewrite Z.div_mul by lia. reflexivity.
 Qed.
